@@ -276,6 +276,7 @@ def check_store(ctx, st, byval=False):
             ctx.require(q, z3.Not(allfit), "aborts only when some field is not representable in the sandbox ABI")
     ctx.only(paths, "ret", "abort")
     ctx.expect(paths, ret=1)
+    ctx.validate_paths(paths, 4)
 
 
 def leaf_app(f, off):
@@ -326,6 +327,7 @@ def check_load(ctx, st, form):
                 ctx.fail(q, "application object overrun")
     ctx.only(paths, "ret")
     ctx.expect(paths, ret=1)
+    ctx.validate_paths(paths, 2)
 
 
 def check_roundtrip(ctx, st):
@@ -407,5 +409,5 @@ def jobs(tier, seed):
                     dict(name="%s %s by-value argument" % (sbx, st.name), fn=check_store, kw=dict(st=st, byval=True)),
                     dict(name="%s %s by-value result" % (sbx, st.name), fn=check_load, kw=dict(st=st, form="byval_ret")),
                     dict(name="%s %s round trip" % (sbx, st.name), fn=check_roundtrip, kw=dict(st=st))]
-            out.append(Job("C08_%s_%s" % (sbx, st.name), src, chks, native=False))
+            out.append(Job("C08_%s_%s" % (sbx, st.name), src, chks, compare_logs=True))
     return out
